@@ -140,7 +140,8 @@ def oracle_roundtrip(case):
     return obs == ('num', case['v']), ('num', case['v']), (observe(there), obs)
 
 
-INVALID = ['2', '12', '8', 'G', '1.0', '1.5', '-1', ' 1', '1 ', '1e3', '0x1', '11111111111', '77777777777', 'FFFFFFFFFFF', '+1', 'é']
+INVALID = ['2', '12', '8', 'G', '1.0', '1.5', '-1', ' 1', '1 ', '1e3', '0x1', '11111111111', '77777777777', 'FFFFFFFFFFF', '+1', 'é',
+           '1\n', '\n1', '1\r', '1\t', '\t1', '1\x0b', '1\x0c', '1\x00', '1_0', '１', '٣', '1\n\n', 'F\n', '7\n']
 
 
 def cases_invalid(tier, seed):
